@@ -3,6 +3,7 @@
 #define _GNU_SOURCE
 #include <fcntl.h>
 #include <stdbool.h>
+#include <sys/wait.h>
 #include <stdio.h>
 #include <stdlib.h>
 #include <string.h>
@@ -211,6 +212,34 @@ int ops_merger(char **args, int na)
 		size_t n = 0; uint8_t *f = read_file(path, &n); unlink(path);
 		if (!f) return -1;
 		printf("%s ", r == mtbl_res_success ? "ok" : "fail"); puthex(stdout, f, n); putchar('\n'); free(f);
+		return 0;
+	}
+	if (!strcmp(op, "m.tool") && na >= 2) {
+		/* src/mtbl_merge built from the tree, with the test merge DSO, over the table files of this merger's sources (the
+		 * generator issues it only when every source is a table); reply: ents <k> <v> ... read back from the output file,
+		 * or "tool exit=<n>" */
+		struct obj *m = getobj(args[1], K_MERGER); if (!m) return -1;
+		struct maux *a = m->aux;
+		extern char vf_tooldir[];
+		char outp[320]; snprintf(outp, sizeof outp, "%s/m%d_tool.mtbl", vf_tmpdir, m->id); unlink(outp);
+		char cmd[8000]; int n = snprintf(cmd, sizeof cmd, "MTBL_MERGE_DSO='%s/merge_dso.so' MTBL_MERGE_FUNC_PREFIX=vfm LC_ALL=C '%s/mtbl_merge' -c %s -b %ld",
+			vf_tooldir, vf_tooldir, kv(args + 2, na - 2, "c") ? kv(args + 2, na - 2, "c") : "none", kvnum(args + 2, na - 2, "b", 1024));
+		long th = kvnum(args + 2, na - 2, "t", -1); if (th >= 0) n += snprintf(cmd + n, sizeof cmd - n, " -t %ld", th);
+		int nt = 0;
+		for (int i = 0; i < a->nsrc; i++) if (a->rd[i]) { n += snprintf(cmd + n, sizeof cmd - n, " '%s'", a->path[i]); nt++; }
+		if (nt != a->nsrc || nt == 0) { puts("tool skipped"); return 0; }
+		snprintf(cmd + n, sizeof cmd - n, " '%s' >/dev/null 2>&1", outp);
+		fflush(stdout);
+		int st = system(cmd);
+		if (!WIFEXITED(st) || WEXITSTATUS(st) != 0) { printf("tool exit=%d\n", WIFEXITED(st) ? WEXITSTATUS(st) : -WTERMSIG(st)); unlink(outp); return 0; }
+		struct mtbl_reader *r = mtbl_reader_init(outp, NULL);
+		if (!r) { puts("tool output-does-not-open"); unlink(outp); return 0; }
+		struct mtbl_iter *it = mtbl_source_iter(mtbl_reader_source(r));
+		const uint8_t *k, *v; size_t kl, vl;
+		printf("ents");
+		while (mtbl_iter_next(it, &k, &kl, &v, &vl) == mtbl_res_success) { putchar(' '); puthex(stdout, k, kl); putchar(' '); puthex(stdout, v, vl); }
+		putchar('\n');
+		mtbl_iter_destroy(&it); mtbl_reader_destroy(&r); unlink(outp);
 		return 0;
 	}
 	if (!strcmp(op, "m.it") && na >= 4) {
